@@ -67,5 +67,8 @@ def utility_sets(inst, K: int, level: str = "small") -> List[List[dict]]:
             # three levels per side
             [u("HP", "Hot", top, top), u("MP", "Hot", T[-1], T[-1]), u("LP", "Hot", mid_hi, mid_hi),
              u("CW", "Cold", bot, bot), u("TW", "Cold", T[0], T[0]), u("WW", "Cold", mid_lo, mid_lo)],
+            # inside-range levels with a one-step temperature glide (spanning process breakpoints)
+            [u("HP", "Hot", top, top), u("MPg", "Hot", mid_hi + step, mid_hi),
+             u("CW", "Cold", bot, bot), u("TWg", "Cold", mid_lo - step, mid_lo)],
         ]
     return sets
